@@ -143,6 +143,47 @@ Proof.
   cbn [s_rows s_cur s_act s_oth s_region s_scr]. rewrite Ga, Go.
   intros (_ & _ & E & _). injection E as E1 E2. lia.
 Qed.
+
+(* ^Wx since 9a0f0fa: the invariant holds afterwards -- in particular the cursor line is inside the half the window moved to *)
+Theorem wswap_keeps_inv fa fo msga msgo (s : sstate R) :
+  4 <= s_rows R s -> s_cur R s <= 1 -> length (s_scr R s) = s_rows R s ->
+  (0 <= v_top (s_act R s))%Z -> (0 <= v_len (s_act R s))%Z -> (0 <= v_top (s_oth R s))%Z -> (0 <= v_len (s_oth R s))%Z ->
+  split_inv R fa fo (wswap_tail R true fa fo msga msgo s).
+Proof.
+  intros Hr Hc Hj Hta Hla Hto Hlo. assert (Hc' : 1 - s_cur R s <= 1) by lia.
+  pose proof (geom_split (s_rows R s) (1 - s_cur R s) Hr Hc') as G.
+  unfold split_inv, wswap_tail.
+  destruct (geom (s_rows R s) 2 (1 - s_cur R s)) as [ba ha] eqn:Ga. destruct (geom (s_rows R s) 2 (1 - (1 - s_cur R s))) as [bo ho] eqn:Go.
+  cbn [s_rows s_cur s_act s_oth s_region s_scr]. rewrite Ga, Go.
+  destruct G as (Ha & Ho & La & Lo & D & _).
+  repeat split.
+  - apply rows_at_drawwin_msg. rewrite drawwin_msg_length. lia.
+  - rewrite rows_at_drawwin_msg_other by (rewrite ?drawwin_msg_length; lia). apply rows_at_drawwin_msg. lia.
+  - apply (view_fix_in ha (s_act R s)); assumption.
+  - apply (view_fix_in ha (s_act R s)); assumption.
+  - apply (view_fix_in ha (s_act R s)); assumption.
+  - apply (view_fix_in ho (s_oth R s)); assumption.
+  - apply (view_fix_in ho (s_oth R s)); assumption.
+  - apply (view_fix_in ho (s_oth R s)); assumption.
+  - rewrite !drawwin_msg_length. exact Hj.
+Qed.
+
+(* before 9a0f0fa (the tail's vi_wfix() works with the height of the half the window came from): on an odd number of rows, from the
+   lower (taller) half with the cursor on its last row, the cursor line is NOT inside the upper half afterwards *)
+Theorem wswap_unfixed_loses_cursor fa fo msga msgo (s : sstate R) k :
+  2 <= k -> s_rows R s = 2 * k + 1 -> s_cur R s = 1 -> s_region R s = geom (s_rows R s) 2 1 ->
+  (0 <= v_top (s_act R s))%Z -> (v_row (s_act R s) = v_top (s_act R s) + Z.of_nat k - 1)%Z -> (v_row (s_act R s) < v_len (s_act R s))%Z ->
+  ~ split_inv R fa fo (wswap_tail R false fa fo msga msgo s).
+Proof.
+  intros Hk Hr Hc Hreg Ht Hrow Hlen.
+  assert (Hhalf : (2 * k + 1) / 2 = k) by (symmetry; apply (Nat.div_unique (2 * k + 1) 2 k 1); lia).
+  unfold split_inv, wswap_tail. rewrite Hc, Hreg, Hr. unfold geom. cbn [Nat.eqb Nat.sub snd]. rewrite Hhalf.
+  cbn [s_rows s_cur s_act s_oth s_region s_scr Nat.eqb Nat.sub]. rewrite Hhalf.
+  replace (2 * k + 1 - k - 1) with k by lia.
+  assert (E : view_fix k (s_act R s) = mkView (v_top (s_act R s)) (v_row (s_act R s)) (v_len (s_act R s))).
+  { unfold view_fix. rewrite (wfix_stable (v_top (s_act R s)) (v_row (s_act R s)) (Z.of_nat k) (v_len (s_act R s))) by lia. reflexivity. }
+  rewrite E. unfold in_view at 1. cbn [v_top v_row v_len]. intros (_ & _ & _ & (_ & _ & H) & _). lia.
+Qed.
 End SplitProps.
 
 (* ---------- which command lines are followed by the repaint ---------- *)
